@@ -135,17 +135,9 @@ def _mutate(name):
                         st.value = cc.template(r"re.compile(r'[&<\"\']').search", mode='eval')
                 return body
             cc.Compiler.visit_Module = visit_Module
-    elif name == 'digest_without_class':
-        from chameleon import template as ct
-        import inspect
-        import textwrap
-        src_fn = ct.BaseTemplate.digest
-        code = textwrap.dedent(inspect.getsource(src_fn))
-        new = code.replace("sha.update(class_name)", "pass")
-        assert new != code
-        ns = src_fn.__globals__
-        exec('from __future__ import annotations\n' + new, ns)
-        ct.BaseTemplate.digest = ns['digest']
+    elif name == 'digest_ignores_template_kind':
+        from vlib.mutants import digest_ignores_template_kind
+        digest_ignores_template_kind()
     else:
         raise KeyError(name)
 
